@@ -39,6 +39,37 @@ theorem hhop_false_iff (all : List Site) (idx : Nat) (this : Site) (p : Bytes) (
     | some o => o.host == this.host && o.port == p | none => false) = b
   cases b <;> simp
 
+/-- some OTHER site of the list has the host of site `idx`, port `p`, and wants a redirect itself -/
+def OtherWants (all : List Site) (idx : Nat) (this : Site) (p : Bytes) : Prop :=
+  ∃ j o, j ≠ idx ∧ all[j]? = some o ∧ o.host = this.host ∧ o.port = p ∧ wantsRedirect o = true
+
+theorem hhrs_true_iff (all : List Site) (idx : Nat) (this : Site) (p : Bytes) (h : all[idx]? = some this) :
+    hostHasRedirectingSiteOnPort all idx p = some true ↔ OtherWants all idx this p := by
+  unfold hostHasRedirectingSiteOnPort OtherWants
+  simp only [h, Option.some.injEq, List.any_eq_true, List.mem_range, Bool.and_eq_true, bne_iff_ne, ne_eq]
+  constructor
+  · rintro ⟨j, hj, hne, hm⟩
+    cases ho : all[j]? with
+    | none => simp [ho] at hm
+    | some o =>
+      simp only [ho, Bool.and_eq_true, beq_iff_eq] at hm
+      exact ⟨j, o, hne, ho, hm.1.1, hm.1.2, hm.2⟩
+  · rintro ⟨j, o, hne, ho, hh, hp, hw⟩
+    have hj : j < all.length := by
+      rcases Nat.lt_or_ge j all.length with h | h
+      · exact h
+      · rw [List.getElem?_eq_none h] at ho; cases ho
+    exact ⟨j, hj, hne, by simp [ho, hh, hp, hw]⟩
+
+theorem hhrs_false_iff (all : List Site) (idx : Nat) (this : Site) (p : Bytes) (h : all[idx]? = some this) :
+    (hostHasRedirectingSiteOnPort all idx p == some false) = true ↔ ¬ OtherWants all idx this p := by
+  rw [← hhrs_true_iff all idx this p h]
+  unfold hostHasRedirectingSiteOnPort
+  simp only [h]
+  generalize ((List.range all.length).any fun i => i != idx && match all[i]? with
+    | some o => o.host == this.host && o.port == p && wantsRedirect o | none => false) = b
+  cases b <;> simp
+
 /-- the redirect sites synthesised while the loop runs over `todo` (index `i` onwards), `e` the declared sites,
 `rs` the redirect sites so far -/
 def redirsGo (e : List Site) : List Site → Nat → List Site → List Site
@@ -46,7 +77,7 @@ def redirsGo (e : List Site) : List Site → Nat → List Site → List Site
   | c :: todo, i, rs =>
     let want := wantsRedirect c &&
       hostHasOtherPort (e ++ rs) i httpPort == some false &&
-      (c.port == httpsPort || hostHasOtherPort (e ++ rs) i httpsPort == some false)
+      (c.port == httpsPort || hostHasRedirectingSiteOnPort (e ++ rs) i httpsPort == some false)
     redirsGo e todo (i + 1) (if want then rs ++ [redirPlaintextHost c] else rs)
 
 theorem redirectsGo_eq (e : List Site) : ∀ (todo : List Site) (i : Nat) (rs : List Site),
@@ -73,11 +104,6 @@ def NoPlain (e : List Site) (h : Bytes) : Prop := ∀ c ∈ e, ¬(c.host = h ∧
 
 /-- some synthesised site serves host `h` -/
 def Covered (rs : List Site) (h : Bytes) : Prop := ∃ r ∈ rs, r.host = h
-
-/-- The known gap (finding C15-redirect-deferred-to-443-sibling): the site is not on the HTTPS port, another site of
-its host is, and that one does not want a redirect itself. -/
-def Blocked (e : List Site) (k : Nat) (c : Site) : Prop :=
-  c.port ≠ httpsPort ∧ ∃ j c', j ≠ k ∧ e[j]? = some c' ∧ c'.host = c.host ∧ c'.port = httpsPort ∧ wantsRedirect c' = false
 
 /-- a site of the same host on the HTTPS port that wants a redirect is still to be visited -/
 def Pending (e : List Site) (i : Nat) (c : Site) : Prop :=
@@ -112,14 +138,14 @@ structure Inv (e : List Site) (i : Nat) (rs : List Site) : Prop where
   sound : ∀ r ∈ rs, ∃ k c, k < i ∧ e[k]? = some c ∧ wantsRedirect c = true ∧ r = redirPlaintextHost c ∧ NoPlain e c.host
   nodup : (rs.map (·.host)).Nodup
   complete : ∀ k c, k < i → e[k]? = some c → wantsRedirect c = true → NoPlain e c.host →
-    Covered rs c.host ∨ Blocked e k c ∨ Pending e i c
+    Covered rs c.host ∨ Pending e i c
 
 theorem ports_differ : httpPort ≠ httpsPort := by decide
 
 theorem inv_step (e : List Site) (i : Nat) (rs : List Site) (c : Site) (hc : e[i]? = some c) (inv : Inv e i rs) :
     Inv e (i + 1) (if (wantsRedirect c &&
       hostHasOtherPort (e ++ rs) i httpPort == some false &&
-      (c.port == httpsPort || hostHasOtherPort (e ++ rs) i httpsPort == some false)) = true
+      (c.port == httpsPort || hostHasRedirectingSiteOnPort (e ++ rs) i httpsPort == some false)) = true
       then rs ++ [redirPlaintextHost c] else rs) := by
   have hi : i < e.length := by
     rcases Nat.lt_or_ge i e.length with h | h
@@ -132,21 +158,28 @@ theorem inv_step (e : List Site) (i : Nat) (rs : List Site) (c : Site) (hc : e[i
     rw [hrc]; rfl
   -- the two tests as propositions
   have h80 := hhop_false_iff (e ++ rs) i c httpPort hci
-  have h443 := hhop_false_iff (e ++ rs) i c httpsPort hci
   rw [otherHas_append e rs i c httpPort hi] at h80
-  rw [otherHas_append e rs i c httpsPort hi] at h443
-  have h443' : (hostHasOtherPort (e ++ rs) i httpsPort == some false) = true ↔
-      ¬ ∃ j c', j ≠ i ∧ e[j]? = some c' ∧ c'.host = c.host ∧ c'.port = httpsPort := by
-    rw [h443]
+  have h443' : (hostHasRedirectingSiteOnPort (e ++ rs) i httpsPort == some false) = true ↔
+      ¬ ∃ j c', j ≠ i ∧ e[j]? = some c' ∧ c'.host = c.host ∧ c'.port = httpsPort ∧ wantsRedirect c' = true := by
+    rw [hhrs_false_iff (e ++ rs) i c httpsPort hci]
+    unfold OtherWants
     constructor
-    · intro h hh; exact h (Or.inl hh)
-    · intro h hh
-      rcases hh with hh | ⟨r, hr, _, hp⟩
-      · exact h hh
-      · rw [hrsport r hr] at hp; exact ports_differ hp
+    · intro h ⟨j, c', hne, ho, hh, hp, hw⟩
+      have hj : j < e.length := by
+        rcases Nat.lt_or_ge j e.length with h | h
+        · exact h
+        · rw [List.getElem?_eq_none h] at ho; cases ho
+      exact h ⟨j, c', hne, by rw [List.getElem?_append_left hj]; exact ho, hh, hp, hw⟩
+    · intro h ⟨j, o, hne, ho, hh, hp, hw⟩
+      rcases Nat.lt_or_ge j e.length with hj | hj
+      · rw [List.getElem?_append_left hj] at ho
+        exact h ⟨j, o, hne, ho, hh, hp, hw⟩
+      · rw [List.getElem?_append_right hj] at ho
+        have := hrsport o (List.mem_of_getElem? ho)
+        rw [this] at hp; exact ports_differ hp
   generalize hw : (wantsRedirect c &&
       hostHasOtherPort (e ++ rs) i httpPort == some false &&
-      (c.port == httpsPort || hostHasOtherPort (e ++ rs) i httpsPort == some false)) = want
+      (c.port == httpsPort || hostHasRedirectingSiteOnPort (e ++ rs) i httpsPort == some false)) = want
   cases want with
   | true =>
     simp only [if_true]
@@ -184,15 +217,14 @@ theorem inv_step (e : List Site) (i : Nat) (rs : List Site) (c : Site) (hc : e[i
       · subst hki
         rw [hc] at hck; cases hck
         exact Or.inl ⟨redirPlaintextHost c, by simp, rfl⟩
-      · rcases inv.complete k c' (by omega) hck hwk hnp with hcov | hbl | ⟨j, cj, hij, hcj, hhj, hpj, hwj⟩
+      · rcases inv.complete k c' (by omega) hck hwk hnp with hcov | ⟨j, cj, hij, hcj, hhj, hpj, hwj⟩
         · obtain ⟨r, hr, hrh⟩ := hcov
           exact Or.inl ⟨r, by simp [hr], hrh⟩
-        · exact Or.inr (Or.inl hbl)
         · by_cases hji : j = i
           · subst hji
             rw [hc] at hcj; cases hcj
             exact Or.inl ⟨redirPlaintextHost c, by simp, hhj⟩
-          · exact Or.inr (Or.inr ⟨j, cj, by omega, hcj, hhj, hpj, hwj⟩)
+          · exact Or.inr ⟨j, cj, by omega, hcj, hhj, hpj, hwj⟩
   | false =>
     simp only [Bool.false_eq_true, if_false]
     refine ⟨?_, inv.nodup, ?_⟩
@@ -215,25 +247,20 @@ theorem inv_step (e : List Site) (i : Nat) (rs : List Site) (c : Site) (hc : e[i
           · exact Or.inl ⟨r, hr, hrh⟩
         · -- another site of the host sits on the HTTPS port
           have hcp : c.port ≠ httpsPort := by simpa using hp443
-          have : ¬ ¬ ∃ j c', j ≠ k ∧ e[j]? = some c' ∧ c'.host = c.host ∧ c'.port = httpsPort := by
+          have : ¬ ¬ ∃ j c', j ≠ k ∧ e[j]? = some c' ∧ c'.host = c.host ∧ c'.port = httpsPort ∧ wantsRedirect c' = true := by
             intro hn; have := h443'.mpr hn; rw [this] at hw; cases hw
-          obtain ⟨j, cj, hjk, hcj, hhj, hpj⟩ := Classical.not_not.mp this
-          cases hwj : wantsRedirect cj with
-          | false => exact Or.inr (Or.inl ⟨hcp, j, cj, hjk, hcj, hhj, hpj, hwj⟩)
-          | true =>
-            rcases Nat.lt_or_ge j k with hlt | hge
-            · have hnpj : NoPlain e cj.host := by rw [hhj]; exact hnp
-              rcases inv.complete j cj hlt hcj hwj hnpj with hcov | hbl | ⟨j2, c2, h1, h2, h3, h4, h5⟩
-              · obtain ⟨r, hr, hrh⟩ := hcov
-                exact Or.inl ⟨r, hr, by rw [hrh, hhj]⟩
-              · exact absurd hpj hbl.1
-              · by_cases hj2 : j2 = k
-                · subst hj2; rw [hc] at h2; cases h2; exact absurd h4 hcp
-                · exact Or.inr (Or.inr ⟨j2, c2, by omega, h2, by rw [h3, hhj], h4, h5⟩)
-            · exact Or.inr (Or.inr ⟨j, cj, by omega, hcj, hhj, hpj, hwj⟩)
-      · rcases inv.complete k c' (by omega) hck hwk hnp with hcov | hbl | ⟨j, cj, hij, hcj, hhj, hpj, hwj⟩
+          obtain ⟨j, cj, hjk, hcj, hhj, hpj, hwj⟩ := Classical.not_not.mp this
+          rcases Nat.lt_or_ge j k with hlt | hge
+          · have hnpj : NoPlain e cj.host := by rw [hhj]; exact hnp
+            rcases inv.complete j cj hlt hcj hwj hnpj with hcov | ⟨j2, c2, h1, h2, h3, h4, h5⟩
+            · obtain ⟨r, hr, hrh⟩ := hcov
+              exact Or.inl ⟨r, hr, by rw [hrh, hhj]⟩
+            · by_cases hj2 : j2 = k
+              · subst hj2; rw [hc] at h2; cases h2; exact absurd h4 hcp
+              · exact Or.inr ⟨j2, c2, by omega, h2, by rw [h3, hhj], h4, h5⟩
+          · exact Or.inr ⟨j, cj, by omega, hcj, hhj, hpj, hwj⟩
+      · rcases inv.complete k c' (by omega) hck hwk hnp with hcov | ⟨j, cj, hij, hcj, hhj, hpj, hwj⟩
         · exact Or.inl hcov
-        · exact Or.inr (Or.inl hbl)
         · by_cases hji : j = i
           · -- the pending site is the one just visited: it wants a redirect, is on 443, and got none
             subst hji
@@ -248,7 +275,7 @@ theorem inv_step (e : List Site) (i : Nat) (rs : List Site) (c : Site) (hc : e[i
               · exact Or.inl ⟨r, hr, by rw [hrh, hhj]⟩
             · have : c.port = httpsPort := hpj
               simp [this] at hp443
-          · exact Or.inr (Or.inr ⟨j, cj, by omega, hcj, hhj, hpj, hwj⟩)
+          · exact Or.inr ⟨j, cj, by omega, hcj, hhj, hpj, hwj⟩
 
 theorem inv_loop (e : List Site) : ∀ (todo : List Site) (i : Nat) (rs : List Site),
     (∀ m, todo[m]? = e[i + m]?) → Inv e i rs → Inv e (i + todo.length) (redirsGo e todo i rs) := by
@@ -573,14 +600,12 @@ theorem chk_redirects (ds : List Site) (hf : ∀ d ∈ ds, Fresh d) :
       rw [List.map_map]; rfl
     rw [this]; exact inv.nodup
 
-/-- completeness of redirect synthesis, with the one known gap: an uncovered HTTPS site is always one that was deferred to a
-sibling on port 443 which makes no redirect itself -/
-theorem chk_cover (ds : List Site) (o : Observed)
-    (ho : (ds.map observeSite).find? (offCover (ds.map observeSite) ((redirsGo (ds.map stageE) (ds.map stageE) 0 []).map observeRedirect)) = some o) :
-    deferredTo443 (ds.map observeSite) o = true := by
+/-- completeness of redirect synthesis: no HTTPS site that wants a redirect and has no plain site of its host is left uncovered -/
+theorem chk_cover (ds : List Site) :
+    (ds.map observeSite).any (offCover (ds.map observeSite) ((redirsGo (ds.map stageE) (ds.map stageE) 0 []).map observeRedirect)) = false := by
   have inv := inv_final (ds.map stageE)
-  have hmem := List.mem_of_find?_eq_some ho
-  have hpred := List.find?_some ho
+  rw [List.any_eq_false]
+  intro o hmem hpred
   obtain ⟨k, hk, hko⟩ := List.getElem_of_mem hmem
   have hk' : k < ds.length := by simpa using hk
   have hod : o = observeSite ds[k] := by rw [← hko]; simp
@@ -596,43 +621,24 @@ theorem chk_cover (ds : List Site) (o : Observed)
     rw [observe_fHost] at this; exact this
   have hek : (ds.map stageE)[k]? = some (stageE ds[k]) := by
     rw [List.getElem?_map, List.getElem?_eq_getElem hk']; rfl
-  rcases inv.complete k (stageE ds[k]) (by simpa using hk') hek hw hnp with hcov | hbl | hpend
-  · exfalso
-    obtain ⟨r, hr, hrh⟩ := hcov
+  rcases inv.complete k (stageE ds[k]) (by simpa using hk') hek hw hnp with hcov | hpend
+  · obtain ⟨r, hr, hrh⟩ := hcov
     rw [List.any_eq_false] at hnocover
     have := hnocover (observeRedirect r) (List.mem_map.mpr ⟨r, hr, rfl⟩)
     apply this
     show (r.host == (observeSite ds[k]).fHost) = true
     rw [observe_fHost, hrh]; simp
-  · obtain ⟨hport, j, cj, _, hcj, hhj, hpj, hwj⟩ := hbl
-    obtain ⟨dj, _, hdj, rfl⟩ := getElem?_stageE ds j cj hcj
-    unfold deferredTo443
-    rw [tables_ports.2.1] at hport hpj
-    simp only [Bool.and_eq_true, bne_iff_ne, ne_eq]
-    refine ⟨by rw [observe_ePort]; exact hport, ?_⟩
-    rw [List.any_eq_true]
-    refine ⟨observeSite dj, List.mem_map.mpr ⟨dj, hdj, rfl⟩, ?_⟩
-    rw [observe_fHost, observe_fHost, observe_ePort, wants_eq, hwj, hhj, hpj]
-    simp
-  · exfalso
-    obtain ⟨j, cj, hj, hcj, _⟩ := hpend
+  · obtain ⟨j, cj, hj, hcj, _⟩ := hpend
     rw [List.getElem?_eq_none (by simpa using hj)] at hcj
     cases hcj
 
-/-- THE SITE-SET VERDICT of the model: "ok", or the one known finding. -/
+/-- THE SITE-SET VERDICT of the model: "ok". -/
 theorem sites_verdict (ds : List Site) (hf : ∀ d ∈ ds, Fresh d) :
-    let v := sitesVerdict (ds.map observeSite) ((redirsGo (ds.map stageE) (ds.map stageE) 0 []).map observeRedirect)
-    v = "ok" ∨ v = "bad:redirect-missing-443-sibling:an HTTPS site has no redirect site because a site of the same host on port 443 (which produces no redirect itself) is preferred" := by
-  intro v
+    sitesVerdict (ds.map observeSite) ((redirsGo (ds.map stageE) (ds.map stageE) 0 []).map observeRedirect) = "ok" := by
   obtain ⟨h1, h2, h3, h4⟩ := chk_redirects ds hf
-  show sitesVerdict _ _ = _ ∨ sitesVerdict _ _ = _
   unfold sitesVerdict
   rw [chk_qualify ds hf]
-  simp only [chk_managedTLS ds hf, chk_http ds hf, h1, h2, h3, h4, Bool.false_eq_true, if_false, not_true_eq_false]
-  cases ho : (ds.map observeSite).find? (offCover (ds.map observeSite) ((redirsGo (ds.map stageE) (ds.map stageE) 0 []).map observeRedirect)) with
-  | none => left; simp
-  | some o =>
-    right
-    simp [chk_cover ds o ho]
+  simp only [chk_managedTLS ds hf, chk_http ds hf, h1, h2, h3, h4, chk_cover ds, Bool.false_eq_true, if_false, not_true_eq_false]
+  simp
 
 end Casket.AutoHTTPS
